@@ -29,7 +29,7 @@ def run(prop, tier, seed, log, bins):
             import random
             rnd = random.Random(seed)
             sample = sorted(rnd.sample(range(64), 6))
-            runs['cvc5'] = encode.run(out_dir, tier, seed, 'cvc5', pieces=('rook', 'bishop'), log=log, mir=mir, per_query_timeout=600, squares=sample)
+            runs['cvc5'] = encode.run(out_dir, tier, seed, 'cvc5', pieces=('rook', 'bishop'), log=log, mir=mir, per_query_timeout=1500, squares=sample, jobs=6)
     except encode.Inconclusive as e:
         extra['inconclusive'] = 'engine B: ' + str(e)
         return extra
